@@ -107,6 +107,7 @@ package hackpadfs
 //@   requires fs != nil
 //@   props C06 C07 C08 C04 C05
 //@   deterministic
+//@   ensures "info" implies(err == nil, info != nil)
 //@   ensures "native" implies(implements(fs, StatFS), info == old(ret("hackpadfs.(StatFS).Stat", 0, fs, name)) && err == old(ret("hackpadfs.(StatFS).Stat", 1, fs, name)) &&
 //@                      world() == old(worldAfter("hackpadfs.(StatFS).Stat", fs, name)))
 //@   ensures "mount" implies(!implements(fs, StatFS) && implements(fs, MountFS),
